@@ -1,6 +1,21 @@
 # Human-written level texts per claimed property (used by tools/gen_manifest.py).
 HOOK_COMMITS = []
 META = {
+    "C10": {
+        "text": "Bounded model checking of the real Sync/replicator/main-loop/Join code under adversarial announcements: each class of rejected head is built with the real ipfs-log (perfect symbolic signatures), mixed with a valid head at each position, and the valid head is re-announced; the replica's log is inspected at quiescence.",
+        "design_ref": "DESIGN.md §2 C10",
+        "note": "Trusted: gosym thread model, stub block store, perfect crypto. Bounds: 2 heads per announcement, 5 rejection classes x 2 positions.",
+    },
+    "C11": {
+        "text": "Bounded model checking of the real replicator with the abort point as a choice: cancellation before the request, at every block fetch, after the last fetch, and/or a failing fetch, for chain and two-branch logs and concurrency 1..2; then a clean retry must converge. One class of counterexamples is a listed known finding (partial ancestry); its complement is verified.",
+        "design_ref": "DESIGN.md §2 C11, §4",
+        "note": "Trusted: gosym thread model, stub block store with fault injection at fetches. Known finding C11-partial-ancestry is reported (KNOWN-FINDING line) and carved out.",
+    },
+    "C09": {
+        "text": "Bounded model checking of the real listeners and main loops of two stores sharing one bus: every action sequence on one database (symbolic payloads) is executed on the real InitBaseStore/storeListener/replicator/main-loop code and the other database's topic, log, status and the addresses on all emitted events are checked at quiescence.",
+        "design_ref": "DESIGN.md §2 C09",
+        "note": "Trusted: gosym, stub bus/pubsub/direct channel. Bounds: 2 databases, STEPS<=3 quick / 4 thorough.",
+    },
     "C05": {
         "text": "Bounded model checking with the crash point as a solver variable: the real write and replication paths run over a disk that logs every persistence effect in order, acknowledgement instants are recorded, the crash index is a symbolic integer over all prefixes of the effect log, and the real Load runs on the recovered prefix; the solver shows every acknowledged entry is recovered, nothing unwritten appears, the log is ancestry-closed and the view matches.",
         "design_ref": "DESIGN.md §2 C05",
